@@ -883,6 +883,14 @@ def _native_key():
 _native_key()
 
 import math as _math
+def _opaque_bounds(I):
+    return sorted(set(round(float(x), 5) for row in I for x in row))
+
+
+# opaque interval arrays (contracts/segment_detection.py) are carried as tuples of (start, end) pairs in native replay
+NATIVE_UF['valid_iv'] = lambda I: all(len(r) == 2 and r[0] >= 0 and r[1] >= 0 and r[0] < r[1] for r in I)
+NATIVE_UF['n_bounds'] = lambda I: len(_opaque_bounds(I))
+NATIVE_UF['bound'] = lambda I, k: _opaque_bounds(I)[int(k)] if 0 <= int(k) < len(_opaque_bounds(I)) else 0.0
 NATIVE_UF['rnd4'] = lambda x: round(float(x), 4)
 NATIVE_UF['log2'] = lambda x: _math.log2(float(x)) if float(x) > 0 else 0.0
 
@@ -1037,6 +1045,14 @@ def spec_rows_extremum(op):
         def cell(i, j):
             for v, _ in call_lambda(eng, lam, [i, j], st):
                 return v
+        if not is_z3(n) and not is_z3(m):
+            # concrete evaluation (native replay)
+            rows = []
+            for i in range(int(n)):
+                vals = [concrete(cell(i, j)) for j in range(int(m))]
+                rows.append((min(vals) if op == 'min' else max(vals)) if vals else 0.0)
+            yield new_ref(st, ArrV((int(n),), lambda i, rows=rows: rows[int(i)], 'real')), st
+            return
         saved = eng.spec_mode
         eng.spec_mode = True
         try:
